@@ -15,6 +15,7 @@ mod mrun;
 mod mtypes;
 mod mworld;
 mod uworld;
+mod sworld;
 
 
 use simcore::cli::*;
@@ -108,6 +109,15 @@ fn check(id: &str, args: &[String]) -> i32 {
         let h = mharness::Managed;
         let r = run_batch(&h, &cfg);
         finish(&h, id, &tier, seed, &m, r, real_vs_stub_managed(), assumptions_managed())
+    } else if id == "C14" {
+        let h = sworld::SyncW;
+        let r = run_batch(&h, &cfg);
+        let rvs = json!({
+            "real": ["deadpool_sync::SyncWrapper (new, interact, try_lock, is_mutex_poisoned, Drop)", "deadpool_runtime::Runtime::spawn_blocking / spawn_blocking_background dispatch up to the guarded seam"],
+            "simulated": ["tokio's blocking thread pool (each job = one worker virtual thread started at an arbitrary later step)", "OS thread scheduling"],
+            "not_exercised": ["SyncWrapper::lock (blocking lock on the caller thread)", "async-std branch"]
+        });
+        finish(&h, id, &tier, seed, &m, r, rvs, assumptions_managed())
     } else if matches!(id, "C05" | "C12") {
         let h = uworld::Unmanaged;
         let r = run_batch(&h, &cfg);
@@ -143,6 +153,16 @@ fn replay(path: &str, quiet: bool) -> i32 {
     };
     let harness = v["harness"].as_str().unwrap_or("");
     match harness {
+        "dsim-sync" => {
+            let rf: ReplayFile<sworld::SScenario> = match serde_json::from_value(v) {
+                Ok(r) => r,
+                Err(e) => {
+                    eprintln!("harness error: {e}");
+                    return 2;
+                }
+            };
+            do_replay(&sworld::SyncW, &rf, path, quiet)
+        }
         "dsim-unmanaged" => {
             let rf: ReplayFile<uworld::UScenario> = match serde_json::from_value(v) {
                 Ok(r) => r,
@@ -175,7 +195,9 @@ fn replay(path: &str, quiet: bool) -> i32 {
 fn selfcheck(id: &str, args: &[String]) -> i32 {
     let runs: u64 = arg_val(args, "--runs").and_then(|s| s.parse().ok()).unwrap_or(10_000);
     let seed: u64 = std::env::var("VERIF_SEED").ok().and_then(|s| s.parse().ok()).unwrap_or(20260926);
-    let r = if matches!(id, "C05" | "C12") {
+    let r = if id == "C14" {
+        selfcheck_with(&sworld::SyncW, id, seed, runs)
+    } else if matches!(id, "C05" | "C12") {
         selfcheck_with(&uworld::Unmanaged, id, seed, runs)
     } else if is_managed(id) {
         selfcheck_with(&mharness::Managed, id, seed, runs)
